@@ -24,9 +24,11 @@ Definition rsyms : list sym := rev (map T [0; 1; 2; 3; 4; 5] ++ map R [0; 1; 2; 
 Definition orders_rev : list (list key) := repeat rkeys 100.
 Definition tos_rev : list torder := repeat (rkeys, rsyms) 100.
 
-Definition run_u8 := from_yacc_mirror g0 noprec noprec u8max 100 [] [].
-Definition run_u32 := from_yacc_mirror g0 noprec noprec u32max 100 [] [].
-Definition run_u32_rev := from_yacc_mirror g0 noprec noprec u32max 100 orders_rev tos_rev.
+(* notations, not definitions: the statements below must be syntactically the instances of the
+   theorems (conversion must never start to evaluate a run) *)
+Notation run_u8 := (from_yacc_mirror g0 noprec noprec u8max 100 [] []).
+Notation run_u32 := (from_yacc_mirror g0 noprec noprec u32max 100 [] []).
+Notation run_u32_rev := (from_yacc_mirror g0 noprec noprec u32max 100 orders_rev tos_rev).
 
 (* the kernels in state order, and the edges: what "numbering" means *)
 Definition numbering (b : built) : list (list (N * nat)) * list (list (sym * nat)) :=
@@ -81,7 +83,7 @@ Proof. vm_compute. reflexivity. Qed.
 
 Example g0_refused_by_storage_check : storage_check_fired g0 15 100 [].
 Proof.
-  apply (refusal_is_storage_check g0 noprec noprec 15 100 [] [] g0_wf (pm_noprec_consistent noprec)).
+  apply (refusal_is_storage_check g0 noprec noprec 15 100%nat [] [] g0_wf (pm_noprec_consistent noprec)).
   exact (f_equal snd g0_bound_16_15).
 Qed.
 
